@@ -231,6 +231,12 @@ func (s vSnap) sub(prefix string) vSnap {
 
 // vCompareTree checks that dst/<name> reproduces the source path src exactly.
 func vCompareTree(src string, dstRoot string, name string) error {
+	return vCompareTreeEx(src, dstRoot, name, nil)
+}
+
+// vCompareTreeEx: entries that already existed under the destination name before the transfer (an
+// overwrite into an existing directory merges with it) are not "extra".
+func vCompareTreeEx(src string, dstRoot string, name string, before vSnap) error {
 	si, err := os.Stat(src)
 	if err != nil {
 		return fmt.Errorf("source vanished: %v", err)
@@ -263,6 +269,9 @@ func vCompareTree(src string, dstRoot string, name string) error {
 	}
 	for _, k := range ds.keys() {
 		if _, ok := ss[k]; !ok {
+			if _, was := before[filepath.Join(name, k)]; was {
+				continue
+			}
 			return fmt.Errorf("extra entry %q under %q", k, name)
 		}
 	}
